@@ -470,6 +470,7 @@ def melt (m : MintView) (id : Nat) (ins : List WProof) (outs : List Out) (script
       match m.verifyInputs ins with
       | some c => (m, .error (.mint c), script, none)
       | none =>
+        if dupSecrets (outs.map (·.secret)) then (m, .error (.mint 11008), script, none) else
         if inSum ins < q.amount + q.feeReserve + m.fees ins then (m, .error (.mint 11002), script, none) else
         if ins.any (fun p => match p.lock with | some l => l.sigAll | none => false) then (m, .error (.mint 30001), script, none) else
         let m1 := ({ m with pending := m.pending ++ ins.map (fun (p : WProof) => (p.secret, p.amount, id)) }).setMeltQ id
